@@ -12,18 +12,24 @@ Only property theorems live here; lemmas are in `GluonModel.Proofs.Share`.
 import GluonModel.Share
 import GluonModel.Loader
 import GluonModel.Proofs.Share
+import GluonModel.LoadVerify
+import GluonModel.Proofs.LoadVerify
+import GluonModel.ModuleRec
+import GluonModel.Proofs.ModuleRec
 
 namespace GluonModel.Props.C12
 open GluonModel.Share GluonModel.Loader
 
-/-- Round trip including sharing: for every heap graph whose shared nodes are consistent objects
-    (`Agrees`), deserialising the serialised form succeeds and yields the *same graph up to the
+/-- Round trip including sharing AND CYCLES: for every heap graph — possibly cyclic, the cycles
+    passing only through fillable objects (closures, in their upvar part) — whose shared objects are
+    consistent (`Agrees h ∅ t`; `∅` = at the root no closure is being filled), deserialising the serialised form succeeds and yields the *same graph up to the
     renaming of addresses* `rho m` (`m` = the serialiser's final pointer→id table): every field of
     every node survives, shared nodes stay shared, unshared (`unique`) nodes stay unshared. -/
-theorem de_ser (h : Nat → T) (t : T) (hag : Agrees h t) :
+theorem de_ser (h : Nat → T) (t : T) (hag : Agrees h (fun _ => False) t) :
     de (ser t) = .ok (relabel (serD [] t).2 t) := by
   obtain ⟨nm', hde, _, _, _⟩ :=
-    Proofs.roundtrip h t [] [] (fun _ => False) hag (Proofs.inv_empty h) (by intro a _ hf; exact hf)
+    Proofs.roundtrip h t [] [] (fun _ => False) (fun _ => False) hag (Proofs.inv_empty h)
+      (by intro a _; exact ⟨fun hf => hf, fun hf => hf⟩)
   have hp : parse (2 * (flat (serD [] t).1).length + 2) (flat (serD [] t).1 ++ []) =
       some ((serD [] t).1, []) :=
     Proofs.parse_flat _ _ [] (by have := Proofs.cost_le (serD [] t).1; omega)
@@ -32,11 +38,12 @@ theorem de_ser (h : Nat → T) (t : T) (hag : Agrees h t) :
 
 /-- … and that renaming is injective on the shared nodes of the graph: two nodes are the same
     object after loading iff they were the same object before. -/
-theorem de_ser_sharing (h : Nat → T) (t : T) (hag : Agrees h t) (a a' : Nat)
-    (ha : a ∈ addrs t) (ha' : a' ∈ addrs t)
+theorem de_ser_sharing (h : Nat → T) (t : T) (hag : Agrees h (fun _ => False) t) (a a' : Nat)
+    (ha : a ∈ addrs t ∨ a ∈ ptrs t) (ha' : a' ∈ addrs t ∨ a' ∈ ptrs t)
     (he : rho (serD [] t).2 a = rho (serD [] t).2 a') : a = a' := by
   obtain ⟨nm', _, hinv, _, hall⟩ :=
-    Proofs.roundtrip h t [] [] (fun _ => False) hag (Proofs.inv_empty h) (by intro a _ hf; exact hf)
+    Proofs.roundtrip h t [] [] (fun _ => False) (fun _ => False) hag (Proofs.inv_empty h)
+      (by intro a _; exact ⟨fun hf => hf, fun hf => hf⟩)
   have h1 := hall a ha
   have h2 := hall a' ha'
   cases e1 : lookup a (serD [] t).2 with
@@ -50,7 +57,7 @@ theorem de_ser_sharing (h : Nat → T) (t : T) (hag : Agrees h t) (a a' : Nat)
       exact hinv.inj a a' i e1 e2
 
 /-- Hence the loaded graph denotes the same value (sharing forgotten). -/
-theorem de_ser_value (h : Nat → T) (t t' : T) (hag : Agrees h t) (hd : de (ser t) = .ok t') :
+theorem de_ser_value (h : Nat → T) (t t' : T) (hag : Agrees h (fun _ => False) t) (hd : de (ser t) = .ok t') :
     unfold t' = unfold t := by
   rw [de_ser h t hag] at hd
   cases hd
@@ -70,16 +77,103 @@ theorem parse_flat (d : D) (rest : List Tok) :
     have := Proofs.cost_le d
     simp only [List.length_append]; omega)
 
-/-- `de` is total with exactly three outcomes: a graph, "input ended", "missing id n"
-    (base/src/serialization.rs:274). -/
+/-- `de` is total with exactly four outcomes: a graph, "input ended", "missing id n"
+    (base/src/serialization.rs:274, vm/src/serialization.rs:606), "closure sequence too short"
+    (vm/src/serialization.rs:568-577 `invalid_length`). -/
 theorem de_total (toks : List Tok) :
-    (∃ t, de toks = .ok t) ∨ de toks = .error .eof ∨ ∃ id, de toks = .error (.missing id) := by
+    (∃ t, de toks = .ok t) ∨ de toks = .error .eof ∨ de toks = .error .invalid ∨
+      ∃ id, de toks = .error (.missing id) := by
   cases h : de toks with
   | ok t => exact .inl ⟨t, rfl⟩
   | error e =>
     cases e with
     | eof => exact .inr (.inl rfl)
-    | missing id => exact .inr (.inr ⟨id, rfl⟩)
+    | invalid => exact .inr (.inr (.inl rfl))
+    | missing id => exact .inr (.inr (.inr ⟨id, rfl⟩))
+
+/-- The hypothesis "cycles pass only through fillable objects" is needed, and the real
+    deserialiser behaves as the model says (correspondence stream C, `cyc-record-root`): the value of
+    `rec let r = { x = 1, f = \y -> r.x #Int+ y } in r` — a cycle *entered through the record* —
+    serialises (the record's address is in `node_to_id`) but cannot be read back: `missing id 0`,
+    because `SharedSeed` enters a record into the NodeMap only after its fields. Entered through the
+    closure (`r.f`) the same cycle round-trips (`exCycle` below). -/
+theorem cycle_through_record_rejected :
+    de (ser (.node 0 false 0 [.atom 1, .clo 1 4 [] [.ptr 0 0]])) = .error (.missing 0) := by
+  rfl
+
+
+/-! #### The module record: every field is written and read back
+
+    `Generated.ModuleFields.structs` is extracted from the Rust structs on every run
+    (translate/module_fields.py). A field added to or removed from `CompiledFunction` & co., or
+    given `serde(skip…)`/`serde(default)`, changes the table and breaks the two `decide` theorems;
+    the table itself is tied to what serde really writes by the `fields` correspondence (key order
+    of the real JSON) and by the Debug-equality oracle on real modules. -/
+section ModuleRecord
+open GluonModel.ModuleRec GluonModel.Generated.ModuleFields
+
+/-- The serialised structs and their fields, in declaration order. -/
+theorem module_fields_listed :
+    structs.map (fun s => (s.name, s.fields.map (·.name))) =
+      [("Module", ["typ", "metadata", "module"]),
+       ("CompiledModule", ["module_globals", "function"]),
+       ("CompiledFunction", ["args", "max_stack_size", "id", "typ", "instructions",
+          "inner_functions", "strings", "records", "debug_info"]),
+       ("DebugInfo", ["source_map", "local_map", "upvars", "source_name"]),
+       ("UpvarInfo", ["name", "typ"]),
+       ("SourceMap", ["map"]),
+       ("LocalMap", ["map"]),
+       ("Local", ["start", "end", "index", "name", "typ"])] := by
+  decide
+
+/-- No field of these structs is skipped or defaulted in either direction; both directions are
+    derived; names are unique. -/
+theorem module_schema_no_skips : noSkips structs = true := by decide
+
+/-- (de ∘ ser) is the identity on every module tree that is an instance of the real schema. -/
+theorem module_roundtrip (v : V) (hc : Conforms structs v) : deV structs (serV structs v) = some v :=
+  ModuleRec.Proofs.roundtripV structs module_schema_no_skips v hc
+
+/-- … for ANY schema that skips nothing (what the theorem above rests on). -/
+theorem schema_roundtrip (sc : Schema) (hns : noSkips sc = true) (v : V) (hc : Conforms sc v) :
+    deV sc (serV sc v) = some v :=
+  ModuleRec.Proofs.roundtripV sc hns v hc
+
+/-- The hypothesis is needed: with `max_stack_size` marked `serde(skip_serializing)` the value is
+    rejected on load (missing field); with `serde(skip)` it loads with the field defaulted. -/
+def skipSchema (ser de : Bool) : Schema :=
+  [⟨"F", true, true, [⟨"args", "VmIndex", false, false, false⟩,
+                      ⟨"max_stack_size", "VmIndex", ser, de, false⟩]⟩]
+def exF : V := .struct "F" [("args", .leaf 1), ("max_stack_size", .leaf 5)]
+
+theorem module_roundtrip_needs_no_skip :
+    deV (skipSchema true false) (serV (skipSchema true false) exF) = none ∧
+    deV (skipSchema true true) (serV (skipSchema true true) exF) =
+      some (.struct "F" [("args", .leaf 1), ("max_stack_size", .leaf 0)]) := by
+  constructor <;> rfl
+
+/-- Non-vacuity: a module `{ typ, metadata, module = { module_globals, function = { …, one inner
+    function, debug info with one local and one upvar } } }` is an instance of the real schema. -/
+def exDebug : V := .struct "DebugInfo"
+  [("source_map", .struct "SourceMap" [("map", .seq [.leaf 0])]),
+   ("local_map", .struct "LocalMap" [("map", .seq [.struct "Local"
+      [("start", .leaf 0), ("end", .leaf 3), ("index", .leaf 0), ("name", .leaf 7), ("typ", .leaf 8)]])]),
+   ("upvars", .seq [.struct "UpvarInfo" [("name", .leaf 1), ("typ", .leaf 8)]]),
+   ("source_name", .leaf 2)]
+def exFun (inner : List V) : V := .struct "CompiledFunction"
+  [("args", .leaf 1), ("max_stack_size", .leaf 4), ("id", .leaf 3), ("typ", .leaf 8),
+   ("instructions", .seq [.leaf 10, .leaf 11]), ("inner_functions", .seq inner),
+   ("strings", .seq []), ("records", .seq [.seq [.leaf 5]]), ("debug_info", exDebug)]
+def exModule : V := .struct "Module"
+  [("typ", .leaf 8), ("metadata", .leaf 9),
+   ("module", .struct "CompiledModule" [("module_globals", .seq [.leaf 6]), ("function", exFun [exFun []])])]
+
+example : Conforms structs exModule := by
+  simp [Conforms, ConformsL, ConformsF, exModule, exFun, exDebug, fieldsOf, structs]
+example : deV structs (serV structs exModule) = some exModule := module_roundtrip _ (by
+  simp [Conforms, ConformsL, ConformsF, exModule, exFun, exDebug, fieldsOf, structs])
+
+end ModuleRecord
 
 /-! #### Loading a module whose globals are not all defined
 
@@ -123,6 +217,52 @@ theorem load_fixed (env : List (String × Nat)) (gs : List String) :
           | tail _ hx => exact ⟨x, hx, hxn⟩
         simp [resolveGlobalsFixed, hl, ih.2 this]
 
+
+/-! #### What a load-time verifier would have to establish (specification; gluon has none)
+
+    FULL STATEMENT (what the property asks of `load`): damaged bytecode gives `Err`. It is FALSE
+    for the code as it is (known findings `unvalidated-operand:panic` / `:process-killed`): operands
+    are never checked. The precise `_fixed` statement: if loading ran `verified` (C07's frame
+    verifier + the operand checks of `LoadVerify`) and rejected what fails it, then no execution of
+    a loaded function could index a frame slot, the code, the string / record / upvar tables or the
+    inner-function table out of range, and no closure allocation could exceed `max_stack_size`. -/
+section Verifier
+open GluonModel.LoadVerify GluonModel.StackVerify
+
+/-- `Verified m → running m never indexes out of range`: at every reachable (pc, frame height) of
+    an activation, there is an instruction at pc, the frame stays within `max_stack_size`, and every
+    index that instruction uses is in range. -/
+theorem load_verified_fixed (f : VFn) (hv : verified f = true) (pc h : Nat)
+    (hr : Reach f.toFn pc h) :
+    ∃ vi, f.code[pc]? = some vi ∧ h ≤ f.max ∧ vi.stack.after h ≤ f.max ∧
+      ∀ a ∈ accesses vi pc h, InRange f h a :=
+  LoadVerify.Proofs.step_in_range f hv pc h hr
+
+/-- … and the property is inherited by every closure the function can create: the target of a
+    `NewClosure`/`MakeClosure` exists, is itself verified, expects exactly the announced number of
+    upvars, and that number is bounded by the frame (no 64 GB allocation). -/
+theorem load_verified_closures (f : VFn) (hv : verified f = true) (vi : VInstr) (hm : vi ∈ f.code)
+    (j u : Nat) (hr : vi.ref = .closure j u) :
+    ∃ g, f.inner[j]? = some g ∧ g.upvars = u ∧ u ≤ f.max ∧ verified g = true :=
+  LoadVerify.Proofs.closure_target f hv vi hm j u hr
+
+/-- The real bytecode of `let f x = \y -> x #Int+ y in f 1 2` (corpus/C12/closure_operand.glu):
+    module body, `f`, and the lambda. -/
+def exLam : VFn := .mk 1 3 [⟨.pushc, .upvar 0⟩, ⟨.push 0, .none⟩, ⟨.binop, .none⟩, ⟨.ret, .none⟩] 0 [] 1 []
+def exF' (upv : Nat) : VFn := .mk 1 4
+  [⟨.new, .closure 0 upv⟩, ⟨.push 1, .none⟩, ⟨.push 0, .none⟩, ⟨.closeclosure 1, .none⟩,
+   ⟨.push 1, .none⟩, ⟨.slide 1, .none⟩, ⟨.ret, .none⟩] 0 [] 0 [exLam]
+def exTop (upv : Nat) : VFn := .mk 0 4
+  [⟨.new, .closure 0 0⟩, ⟨.push 0, .none⟩, ⟨.closeclosure 0, .none⟩, ⟨.push 0, .none⟩, ⟨.pushc, .none⟩,
+   ⟨.pushc, .none⟩, ⟨.tailcall 2, .none⟩, ⟨.slide 1, .none⟩, ⟨.ret, .none⟩] 0 [] 0 [exF' upv]
+
+/-- compiler output passes … -/
+example : verified (exTop 1) = true := by decide
+/-- … the damaged module of the known finding (`NewClosure.upvars := 4294967295`) is rejected. -/
+theorem load_unverified_rejected : verified (exTop 4294967295) = false := by decide
+
+end Verifier
+
 /-! Non-vacuity: a graph with real sharing — a record `5` whose two fields are the same array `3`,
     plus an unshared (`unique`) node — meets `Agrees`, and its round trip is computed. -/
 
@@ -130,8 +270,24 @@ def exArr : T := .node 3 false 1 [.atom 7, .atom 8]
 def exRec : T := .node 5 false 0 [exArr, .node 9 true 2 [.atom 1], exArr]
 def exHeap : Nat → T := fun a => if a = 3 then exArr else exRec
 
-example : Agrees exHeap exRec := by
+example : Agrees exHeap (fun _ => False) exRec := by
   simp [Agrees, AgreesL, exRec, exArr, exHeap, addrsL, addrs]
+
+/-- A cyclic graph: closure `1` whose upvar is the record `2` one of whose fields is the closure
+    itself (`rec let r = { x = 1, f = \y -> … r … } in r.f`), and a second field sharing array `3`
+    with the closure's function part. -/
+def exCycle : T := .clo 1 4 [exArr] [.node 2 false 0 [.atom 1, .ptr 1 4, exArr]]
+def exCycleHeap : Nat → T := fun a =>
+  if a = 3 then exArr else if a = 2 then .node 2 false 0 [.atom 1, .ptr 1 4, exArr] else exCycle
+
+example : Agrees exCycleHeap (fun _ => False) exCycle := by
+  simp [Agrees, AgreesL, exCycle, exArr, exCycleHeap, addrsL, addrs, T.sort]
+example : ser exCycle =
+    [.cmarked 4 0 1 2, .marked 1 1 2, .atom 7, .atom 8, .marked 0 2 3, .atom 1, .ref 4 0, .ref 1 1] := by
+  simp [ser, serD, serDs, exCycle, exArr, lookup, flat, flats]
+example : de (ser exCycle) = .ok (.clo 0 4 [.node 1 false 1 [.atom 7, .atom 8]]
+    [.node 2 false 0 [.atom 1, .ptr 0 4, .node 1 false 1 [.atom 7, .atom 8]]]) := by
+  rfl
 example : ser exRec =
     [.marked 0 0 3, .marked 1 1 2, .atom 7, .atom 8, .plain 2 1, .atom 1, .ref 1 1] := by
   simp [ser, serD, serDs, exRec, exArr, lookup, flat, flats]
